@@ -102,6 +102,11 @@ def first_order_match(pat, t, inst=None):
                 # bound variables
                 if bd_vars and t.has_vars(bd_vars):
                     raise MatchException(trace)
+                # The type of the schematic variable must match the type of t
+                try:
+                    pat.T.match_incr(t.get_type(), inst.tyinst)
+                except (TypeMatchException, term.TypeCheckException):
+                    raise MatchException(trace)
                 inst[pat.head.name] = t
             else:
                 if inst[pat.head.name] != t:
